@@ -143,6 +143,7 @@ Fixpoint table2 (tbl : list (N * N * N)) (k n : N) : N :=
   | (n', k', v) :: t => if (n' =? n) && (k' =? k) then v else table2 t k n
   end.
 
-Definition mk_config (r : router) (prio : bool) (htbl : list (N * N * N)) (ctbl : list (N * N)) : config :=
+Definition mk_config_gen (fixed : bool) (r : router) (prio : bool) (htbl : list (N * N * N)) (ctbl : list (N * N)) : config :=
   mkCfg r prio (table2 htbl) (fun k _ => table_fun ctbl (fun k => k) k)
-        (fun k => k mod 5) (fun k => negb (k mod 7 =? 6)).
+        (fun k => k mod 5) (fun k => negb (k mod 7 =? 6)) fixed.
+Definition mk_config := mk_config_gen true.
